@@ -250,7 +250,9 @@ def r4(F, R):
         if not main_loops:
             R.bad("C03-R4", b.path + ":loop", b.path, "no doubling loop found")
             continue
-        h, body = max(main_loops, key=lambda x: len(x[1]))
+        # the doubling loop is the outermost one: its header dominates the headers of the others (the extra-doublings loop is entered from it)
+        outer = [(h_, body_) for (h_, body_) in main_loops if all(b.dominates(h_, h2) for (h2, _b2) in main_loops)]
+        h, body = outer[0] if outer else max(main_loops, key=lambda x: len(x[1]))
         # loop condition
         ht = b.blocks[h]["term"]
         cond_ok = False
@@ -422,6 +424,82 @@ def r6(F, R):
     R.floor("C03-R6", 1)
 
 
+def snapshot(F, R, rid="C03-R7"):
+    """initial_energy is a snapshot of energy() at the start of the trajectory (shared with C01)."""
+    from . import eff as E
+    R.rule(rid, "energy snapshot: where TransformedPoint.initial_energy is stored from Point::energy(), no write of a field that energy() reads "
+                "(read set taken from the body of energy(): kinetic energy, logp, logdet) is reachable after the store in the same function - "
+                "energy errors and tree weights of the trajectory are relative to the energy of the start state as it is integrated")
+    adt = "transformed_hamiltonian::TransformedPoint"
+    en = [b for b in F.trait_method_impls("Point", "energy") if path_ends(b.parent.get("self_adt"), adt)]
+    if not en:
+        R.missing(rid, "impl Point::energy for TransformedPoint")
+        return
+    reads = set()
+    for blk in en[0].blocks:
+        for st in blk["stmts"]:
+            if st["k"] == "assign":
+                for o in K_rvalue_operands(st["rv"]):
+                    if o["k"] in ("copy", "move"):
+                        for e in o["pl"]["p"]:
+                            if isinstance(e, dict) and "f" in e and e.get("n") and path_ends(e.get("of") or "", adt):
+                                reads.add(e["n"])
+    if not reads:
+        R.missing(rid, "fields read by TransformedPoint::energy")
+        return
+    n = 0
+    for (b, bi, st, v, how) in K.field_writers(F, adt, "initial_energy"):
+        if how not in ("assign", "call"):
+            continue
+        if not any(x[0] == "call" and path_ends(x[1], "Point::energy") for x in vt_walk(v)):
+            continue
+        n += 1
+        site = "%s @%s" % (b.path, loc(st["span"]))
+        key = "%s:snapshot" % b.path
+        later_blocks = b.reach_strict(bi)
+        offenders = []
+        # rest of the storing block
+        blk = b.blocks[bi]
+        todo = []
+        if how == "assign":
+            idx = blk["stmts"].index(st)
+            todo.append((bi, blk["stmts"][idx + 1:], blk["term"]))
+        for x in sorted(later_blocks):
+            if x == bi and how == "assign":
+                todo.append((x, b.blocks[x]["stmts"], b.blocks[x]["term"]))
+            elif x != bi:
+                todo.append((x, b.blocks[x]["stmts"], b.blocks[x]["term"]))
+        for (x, stmts, term) in todo:
+            if b.blocks[x]["cleanup"]:
+                continue
+            for s2 in stmts:
+                if s2["k"] == "assign":
+                    for f in reads:
+                        i = K._place_field(s2["pl"], adt, f)
+                        if i is not None and i == len(s2["pl"]["p"]) - 1:
+                            offenders.append("%s written at %s" % (f, loc(s2["span"])))
+            if term["k"] == "call":
+                for f in reads:
+                    i = K._place_field(term["dest"], adt, f)
+                    if i is not None and i == len(term["dest"]["p"]) - 1:
+                        offenders.append("%s written at %s" % (f, loc(term["span"])))
+                for (mode, pl, leaf, _scal, _ai) in E.call_effects(F, b, term):
+                    if mode == "W" and pl is not None and pl[1] and pl[1][-1] in reads:
+                        offenders.append("%s written by %s at %s" % (pl[1][-1], term["callee"].get("name"), loc(term["span"])))
+        if offenders:
+            R.bad(rid, key, site, "initial_energy is taken before the point is complete: %s" % "; ".join(sorted(set(offenders))[:4]))
+        else:
+            R.ok(rid, key, site, "initial_energy = energy() after the last write of %s" % sorted(reads))
+    if n == 0:
+        R.missing(rid, "store of initial_energy from energy()")
+
+
+def K_rvalue_operands(rv):
+    from .facts import _rvalue_operands
+    return _rvalue_operands(rv)
+
+
+
 def run(F, R, config="all"):
     r1(F, R)
     r2(F, R)
@@ -429,6 +507,7 @@ def run(F, R, config="all"):
     r4(F, R)
     r5(F, R)
     r6(F, R)
+    snapshot(F, R)
     from . import c01, c02
     c01.r7(F, R)
     # the next trajectory starts from the returned draw only if stale whitened coordinates are refreshed:
